@@ -12,7 +12,9 @@ claims
   rw     chart -> write -> read     impl == model;               (S) result is the chart up to < 1 ms
   wr     document -> read -> write  impl == model;               (S) the written document is allowed and denotes what
                                                                      the original denotes up to < 1 ms
-Charts are built natively (item constructors), with from_dict, or by the converters OsuToQua / SMToQua, and are
+Charts are built natively (item constructors), with from_dict, or by the converters OsuToQua / SMToQua / BMSToQua /
+O2JToQua from sources that went through ordinary operation histories (trimmed, masked, re-sorted, appended, stack-edited,
+rated: non-default row labels at conversion time), and are
 *observed* (frames -> rows) before they are sent to the model, so the model needs no converter.
 """
 import json
@@ -29,7 +31,9 @@ THOROUGH_BUDGET_S = 900
 RULE = ("documents: 0-12 hit objects over lanes 1-10 with StartTime/KeySounds/Lane omitted at random, holds via EndTime, "
         "0-6 timing points / scroll velocities with omitted StartTime/Bpm/Multiplier, empty sections, hits only, holds only, "
         "a random subset of the 21 metadata keys with strings that need YAML quoting, block and flow style; charts: built "
-        "natively, with from_dict, or converted from osu!/StepMania charts, offsets from integers, dyadic rationals, "
+        "natively, with from_dict, or converted (OsuToQua, SMToQua, BMSToQua, O2JToQua) from source charts that first went through "
+        "0-3 ordinary operations (after/before/between, boolean mask, reverse sort, sort, append, stack edit, rate - they leave "
+        "non-default row labels), offsets from integers, dyadic rationals, "
         "arbitrary doubles and values next to a whole millisecond; claims read/write/rw/wr; non-trivial = at least one "
         "hit object or tempo point and (an omitted key, a hold, a fractional time, a quoted string, or a converted chart)")
 ASSUMPTIONS = [
@@ -240,8 +244,54 @@ def set_meta(m, meta):
             setattr(m, a, py_meta_val(k, meta[k]))
 
 
+def apply_history(src, history):
+    """ordinary operation histories on the SOURCE chart before conversion (they leave non-default row labels):
+    trimming with after/before/between, a boolean mask, reverse sort, append, a stack edit, rate"""
+    import numpy as np
+    for step in history or []:
+        op = step[0]
+        for name in ("hits", "holds"):
+            tl = getattr(src, name)
+            if op == "after":
+                setattr(src, name, tl.after(float(F(step[1])), include_end=bool(step[2])))
+            elif op == "before":
+                setattr(src, name, tl.before(float(F(step[1])), include_end=bool(step[2])))
+            elif op == "between":
+                setattr(src, name, tl.between(float(F(step[1])), float(F(step[2]))))
+            elif op == "mask":
+                bits = step[1]
+                mask = np.array([bool(bits[i % len(bits)]) for i in range(len(tl))], dtype=bool)
+                setattr(src, name, tl[mask])
+            elif op == "reverse":
+                setattr(src, name, tl.sorted(reverse=True))
+            elif op == "sorted":
+                setattr(src, name, tl.sorted())
+            elif op == "append_first" and len(tl) > 0:
+                setattr(src, name, tl.append(tl[0]))
+        if op == "stack_shift":
+            st = src.stack()
+            if len(st._stacked) > 0 if hasattr(st, "_stacked") else True:
+                st.offset += float(F(step[1]))
+        elif op == "rate":
+            src = src.rate(float(F(step[1])))
+    return src
+
+
+def source_rows(src):
+    """the rows of the source chart at conversion time, by position (what a converted chart must carry)"""
+    hits = sorted((Fr(*R(o)), int(c)) for o, c in zip(src.hits.offset.to_numpy(), src.hits.column.to_numpy()))
+    holds = sorted((Fr(*R(o)), int(c), Fr(*R(l))) for o, c, l in
+                   zip(src.holds.offset.to_numpy(), src.holds.column.to_numpy(), src.holds.length.to_numpy()))
+    bpms = sorted((Fr(*R(o)), Fr(*R(b))) for o, b in zip(src.bpms.offset.to_numpy(), src.bpms.bpm.to_numpy()))
+    return dict(hits=hits, holds=holds, bpms=bpms)
+
+
+_LAST_SOURCE = {}
+
+
 def build_chart(case):
     """case['chart'] -> QuaMap, through the construction path case['build']"""
+    _LAST_SOURCE.clear()
     QuaMap, QuaHit, QuaHold, QuaBpm, QuaSv, QuaBpmList, QuaSvList, QuaHitList, QuaHoldList = _imports()
     ch, how, ints = case["chart"], case["build"], case.get("ints", False)
     n = lambda x: pynum(x, ints)
@@ -294,6 +344,8 @@ def build_chart(case):
         o.tags = list(meta.get("Tags", []))
         o.audio_file_name = meta.get("AudioFile", "")
         o.background_file_name = meta.get("BackgroundFile", "")
+        o = apply_history(o, case.get("history"))
+        _LAST_SOURCE.update(source_rows(o))
         m = OsuToQua.convert(o)
         if "InitialScrollVelocity" in meta:
             m.initial_scroll_velocity = py_meta_val("InitialScrollVelocity", meta["InitialScrollVelocity"])
@@ -319,8 +371,60 @@ def build_chart(case):
         sms.credit = meta.get("Creator", "")
         sms.music = meta.get("AudioFile", "")
         sms.background = meta.get("BackgroundFile", "")
+        sm = apply_history(sm, [h for h in case.get("history") or [] if h[0] != "rate"])
+        _LAST_SOURCE.update(source_rows(sm))
         sms.maps = [sm]
         m = SMToQua.convert(sms)[0]
+        if "InitialScrollVelocity" in meta:
+            m.initial_scroll_velocity = py_meta_val("InitialScrollVelocity", meta["InitialScrollVelocity"])
+        return m
+    if how == "bms":
+        from reamber.bms.BMSMap import BMSMap
+        from reamber.bms.BMSHit import BMSHit
+        from reamber.bms.BMSHold import BMSHold
+        from reamber.bms.BMSBpm import BMSBpm
+        from reamber.bms.lists.BMSBpmList import BMSBpmList
+        from reamber.bms.lists.notes.BMSHitList import BMSHitList
+        from reamber.bms.lists.notes.BMSHoldList import BMSHoldList
+        from reamber.algorithms.convert.BMSToQua import BMSToQua
+        b = BMSMap()
+        b.hits = BMSHitList([BMSHit(n(of), c) for of, c, k in ch["hits"]])
+        b.holds = BMSHoldList([BMSHold(n(of), c, n(l)) for of, c, l, k in ch["holds"]])
+        b.bpms = BMSBpmList([BMSBpm(n(of), n(bp)) for of, bp, mt in ch["bpms"]])
+        meta = ch["meta"]
+        b.title = meta.get("Title", "t").encode("ascii", "ignore")
+        b.artist = meta.get("Artist", "a").encode("ascii", "ignore")
+        b.version = meta.get("DifficultyName", "v").encode("ascii", "ignore")
+        b = apply_history(b, [h for h in case.get("history") or [] if h[0] != "rate"])
+        _LAST_SOURCE.update(source_rows(b))
+        m = BMSToQua.convert(b, raise_bad_mode=False)
+        if "InitialScrollVelocity" in meta:
+            m.initial_scroll_velocity = py_meta_val("InitialScrollVelocity", meta["InitialScrollVelocity"])
+        return m
+    if how == "o2j":
+        from reamber.o2jam.O2JMapSet import O2JMapSet
+        from reamber.o2jam.O2JMap import O2JMap
+        from reamber.o2jam.O2JHit import O2JHit
+        from reamber.o2jam.O2JHold import O2JHold
+        from reamber.o2jam.O2JBpm import O2JBpm
+        from reamber.o2jam.lists.O2JBpmList import O2JBpmList
+        from reamber.o2jam.lists.notes.O2JHitList import O2JHitList
+        from reamber.o2jam.lists.notes.O2JHoldList import O2JHoldList
+        from reamber.algorithms.convert.O2JToQua import O2JToQua
+        oj = O2JMap()
+        oj.hits = O2JHitList([O2JHit(n(of), c) for of, c, k in ch["hits"]])
+        oj.holds = O2JHoldList([O2JHold(n(of), c, n(l)) for of, c, l, k in ch["holds"]])
+        oj.bpms = O2JBpmList([O2JBpm(n(of), n(bp)) for of, bp, mt in ch["bpms"]])
+        meta = ch["meta"]
+        ojs = O2JMapSet()
+        ojs.title = meta.get("Title", "")
+        ojs.artist = meta.get("Artist", "")
+        ojs.creator = meta.get("Creator", "")
+        ojs.level = [7]
+        oj = apply_history(oj, [h for h in case.get("history") or [] if h[0] != "rate"])
+        _LAST_SOURCE.update(source_rows(oj))
+        ojs.maps = [oj]
+        m = O2JToQua.convert(ojs)[0]
         if "InitialScrollVelocity" in meta:
             m.initial_scroll_velocity = py_meta_val("InitialScrollVelocity", meta["InitialScrollVelocity"])
         return m
@@ -505,10 +609,39 @@ def gen(rng, tier, i):
                     sort_keys=rng.random() < 0.3)
     if r < 0.46:
         return dict(claim="wr", doc=gen_doc(rng), style=rng.choice(["block", "mixed"]), sort_keys=False)
-    build = rng.choice(["native", "native", "native", "from_dict", "osu", "osu", "sm"])
+    build = rng.choice(["native", "native", "native", "from_dict", "osu", "osu", "sm", "sm", "bms", "o2j"])
     ch, ints, keys = gen_chart(rng, build)
     claim = "write" if r < 0.8 else "rw"
-    return dict(claim=claim, build=build, ints=ints, keys=keys, chart=ch)
+    case = dict(claim=claim, build=build, ints=ints, keys=keys, chart=ch)
+    if build in CONVERTED and rng.random() < 0.7:
+        case["history"] = gen_history(rng, ch)
+    return case
+
+
+CONVERTED = ("osu", "sm", "bms", "o2j")
+
+
+def gen_history(rng, ch):
+    """1-3 ordinary operations on the source chart before conversion"""
+    times = [F(r[0]) for r in ch["hits"] + ch["holds"]] or [Fr(0)]
+    lo, hi = min(times), max(times)
+    out = []
+    for _ in range(rng.choice([1, 1, 2, 3])):
+        op = rng.choice(["after", "before", "between", "mask", "mask", "reverse", "sorted", "append_first", "stack_shift", "rate"])
+        if op in ("after", "before"):
+            out.append([op, R(rng.choice(times + [lo - 1, hi + 1, (lo + hi) / 2])), rng.random() < 0.5])
+        elif op == "between":
+            a, b = sorted([rng.choice(times + [lo - 1]), rng.choice(times + [hi + 1])])
+            out.append([op, R(a), R(b)])
+        elif op == "mask":
+            out.append([op, [rng.random() < 0.6 for _ in range(rng.choice([2, 3, 5]))]])
+        elif op == "stack_shift":
+            out.append([op, R(rng.choice([1, -3, 250, Fr(1, 2)]))])
+        elif op == "rate":
+            out.append([op, R(rng.choice([Fr(1, 2), 2, Fr(5, 4)]))])
+        else:
+            out.append([op])
+    return out
 
 
 def _doc(ho=(), tp=(), sv=(), **meta):
@@ -532,6 +665,14 @@ def corpus():
                 bpms=[[R(0), R(150), R(4)]], svs=[[R(10), R(1.5)]])
     c.append(dict(claim="write", build="osu", ints=False, keys=4, chart=conv, _expect="D08"))
     c.append(dict(claim="write", build="sm", ints=True, keys=4, chart=conv, _expect="D08"))
+    # D11 / seeded C06-C: sources that went through ordinary histories (non-default row labels) before conversion
+    src = dict(meta=dict(Title="t", InitialScrollVelocity=R(1.0)),
+               hits=[[R(100), 0, None], [R(200), 1, None], [R(300), 2, None], [R(400), 3, None]],
+               holds=[[R(150), 1, R(100), None], [R(350), 2, R(50.5), None]], bpms=[[R(0), R(150), R(4)]], svs=[])
+    for b in ("osu", "sm", "bms", "o2j"):
+        c.append(dict(claim="write", build=b, ints=False, keys=4, chart=src, history=[["after", R(150), False]]))
+    c.append(dict(claim="rw", build="osu", ints=True, keys=4, chart=src, history=[["mask", [False, True]], ["reverse"]]))
+    c.append(dict(claim="rw", build="sm", ints=True, keys=4, chart=src, history=[["between", R(150), R(400)], ["stack_shift", R(250)]]))
     # D29 (fixed): default-constructed metadata used to be written with InitialScrollVelocity: ''
     c.append(dict(claim="write", build="native", ints=False, keys=4,
                   chart=dict(meta={}, hits=[[R(1), 0, []]], holds=[], bpms=[], svs=[]), _expect="D29"))
@@ -611,8 +752,15 @@ def valid(case):
             return True
         if cl in ("write", "rw"):
             ch = case["chart"]
-            if case["build"] not in ("native", "from_dict", "osu", "sm"):
+            if case["build"] not in ("native", "from_dict", "osu", "sm", "bms", "o2j"):
                 return False
+            for h in case.get("history") or []:
+                if h[0] not in ("after", "before", "between", "mask", "reverse", "sorted", "append_first", "stack_shift", "rate"):
+                    return False
+                if h[0] == "mask" and not (isinstance(h[1], list) and h[1]):
+                    return False
+                if h[0] == "rate" and F(h[1]) <= 0:
+                    return False
             for o, c, k in ch["hits"]:
                 if abs(F(o)) > 2 ** 40 or not (0 <= c < 18) or not (k is None or all(len(e) == 2 for e in k)):
                     return False
@@ -925,13 +1073,27 @@ def _chart_tags(case, ch):
 
 def run_write(case, drv, then_read=False):
     claim = "rw" if then_read else "write"
+    import warnings
     try:
-        m = build_chart(case)
+        with warnings.catch_warnings():
+            warnings.simplefilter("ignore")
+            m = build_chart(case)
+    except Exception as e:
+        empty_bms = case["build"] == "bms" and not (case["chart"]["hits"] or case["chart"]["holds"])   # BMSToQua needs a note
+        if case["build"] in CONVERTED and (case.get("history") is not None or empty_bms):
+            # an operation of the history is not applicable to this source (e.g. rate on an empty list): not a C06 case
+            return dict(claim=claim, ok=True, agree=True, dom=False, tags=["history-not-applicable:" + type(e).__name__],
+                        nontrivial=False, detail={})
+        raise
+    try:
         ch, extras = observe(m)
     except Unobservable as e:
-        return dict(claim=claim, ok=False, agree=False, dom=False, tags=["unobservable-chart"], nontrivial=False,
-                    detail=dict(unobservable=str(e)))
+        # a chart produced by conversion must be a chart: finite times, integral lanes, list-valued key sounds
+        return dict(claim=claim, ok=False, agree=False, dom=False, tags=["unobservable-chart", case["build"]], nontrivial=True,
+                    detail=dict(unobservable=str(e), source_rows={k: [str(x) for x in v[:6]] for k, v in _LAST_SOURCE.items()}))
     tags = _chart_tags(case, ch)
+    if case.get("history"):
+        tags.append("source-history")
     domc = drv.call("c06.dom_chart", chart=ch)["ok"]
     dom = domc["ks_lists"] and domc["meta_typed"] and domc["tags_ok"] and domc["meta_keys_ok"] and not extras
     boundary = chart_has_boundary(ch)
@@ -941,6 +1103,13 @@ def run_write(case, drv, then_read=False):
     problems, findings = [], set()
     if extras:
         problems.append("extra-columns:" + ",".join(extras))
+    if case["build"] in CONVERTED and _LAST_SOURCE:
+        # the converted chart carries the rows the source had at conversion time (as multisets: order is C08's matter)
+        got = dict(hits=sorted((F(o), c) for o, c, k in ch["hits"]), holds=sorted((F(o), c, F(l)) for o, c, l, k in ch["holds"]),
+                   bpms=sorted((F(o), F(b)) for o, b, mt in ch["bpms"]))
+        for name in ("hits", "holds", "bpms"):
+            if got[name] != _LAST_SOURCE[name]:
+                problems.append(f"converted-{name}-differ-from-source")
     try:        # the document must denote the chart as it still is: writing may not alter it
         after, _ = observe(m)
         if json.dumps(after, sort_keys=True) != json.dumps(ch, sort_keys=True):
